@@ -76,6 +76,28 @@ class CUnit:
         self.functions: Dict[str, CNode] = {}
         self.prototypes: Dict[str, CNode] = {}
         self.records: Dict[str, CNode] = {}
+        self.enum_constants: Dict[str, str] = {}
+
+        def collect_enums(j: Dict[str, Any]) -> None:
+            if j.get("kind") == "EnumDecl":
+                nxt = 0
+                for c in j.get("inner", []) or []:
+                    if isinstance(c, dict) and c.get("kind") == "EnumConstantDecl":
+                        val = None
+                        for x in c.get("inner", []) or []:
+                            if isinstance(x, dict) and x.get("kind") in ("ConstantExpr", "IntegerLiteral") and x.get("value") is not None:
+                                val = x.get("value")
+                        if val is None:
+                            val = str(nxt)
+                        try:
+                            nxt = int(val) + 1
+                        except ValueError:
+                            pass
+                        self.enum_constants[c.get("name")] = str(val)
+            for c in j.get("inner", []) or []:
+                if isinstance(c, dict):
+                    collect_enums(c)
+        collect_enums(tu)
         main_file = os.path.basename(path)
         in_main = False
         state = [0]
@@ -94,6 +116,8 @@ class CUnit:
             if node.kind == "FunctionDecl":
                 has_body = any(c.kind == "CompoundStmt" for c in node.children)
                 if has_body:
+                    fold_enum_constants(node, self.enum_constants)
+                    pointer_arithmetic_as_indexing(node)
                     normalise_loops(node)
                 (self.functions if has_body else self.prototypes)[node.props.get("name", "?")] = node
             elif node.kind == "RecordDecl" and node.props.get("name"):
@@ -119,6 +143,40 @@ class CUnit:
     def fields(self, rname: str) -> List[str]:
         r = self.records.get(rname)
         return [f"{c.props.get('type')} {c.props.get('name')}" for c in r.children if c.kind == "FieldDecl"] if r else []
+
+
+def fold_enum_constants(root: CNode, values: Dict[str, str]) -> None:
+    """a reference to an enumeration constant is the integer it names"""
+    for n in root.walk():
+        for i, c in enumerate(n.children):
+            if c.kind == "DeclRefExpr" and c.props.get("refkind") == "EnumConstantDecl" and c.props.get("ref") in values:
+                n.children[i] = CNode("IntegerLiteral", {"value": values[c.props.get("ref")], "type": "int"}, [], c.line)
+
+
+def pointer_arithmetic_as_indexing(root: CNode) -> None:
+    """`*(p + e)` is `p[e]`, `(p + e)->f` is `p[e].f`  (p of pointer type)"""
+    def as_index(e: CNode) -> Optional[CNode]:
+        e = strip(e)
+        if e.kind == "BinaryOperator" and e.props.get("opcode") == "+" and len(e.children) == 2:
+            l, r = e.children
+            if "*" in str(strip(l).props.get("type") or l.props.get("type") or ""):
+                return CNode("ArraySubscriptExpr", {"type": str(l.props.get("type") or "").replace(" *", "").replace("*", "")}, [l, r], e.line)
+            if "*" in str(strip(r).props.get("type") or r.props.get("type") or ""):
+                return CNode("ArraySubscriptExpr", {"type": str(r.props.get("type") or "").replace(" *", "").replace("*", "")}, [r, l], e.line)
+        return None
+    for n in list(root.walk()):
+        for i, c in enumerate(n.children):
+            c0 = strip(c)
+            if c0.kind == "UnaryOperator" and c0.props.get("opcode") == "*" and not c0.props.get("isPostfix") and c0.children:
+                sub = as_index(c0.children[0])
+                if sub is not None:
+                    n.children[i] = sub
+            elif c0.kind == "MemberExpr" and c0.props.get("isArrow") and c0.children:
+                sub = as_index(c0.children[0])
+                if sub is not None:
+                    props = dict(c0.props)
+                    props["isArrow"] = False
+                    n.children[i] = CNode("MemberExpr", props, [sub], c0.line)
 
 
 def normalise_loops(root: CNode) -> None:
